@@ -73,8 +73,10 @@ static void invoke(addrxlat_ctx_t *ctx, int h)
 	fflush(stdout);
 }
 
-/* run invocations hs[from..n) in a child; returns index of the one that
- * crashed, or n */
+/* run ops hs[from..n) in a child (deletions before `from` are replayed
+ * silently); returns index of the op that crashed, or n.
+ * hs[i] >= 0: invoke hook; hs[i] < 0: delete the layer at position -(hs[i]+1)
+ * from the top of the current chain. */
 static int run_child(const int *hs, int from, int n)
 {
 	int pfd[2], i, st, done = from;
@@ -95,12 +97,22 @@ static int run_child(const int *hs, int from, int n)
 			cbs[i]->priv = (void *)privs[i];
 			set_layer(cbs[i], nlay - 1 - i, masks[i]);
 		}
-		for (i = from; i < n; ++i) {
-			invoke(ctx, hs[i]);
-			if (write(pfd[1], "x", 1) != 1) _exit(4);
+		int live = nlay;
+		for (i = 0; i < n; ++i) {
+			if (hs[i] < 0) {
+				int pos = -(hs[i] + 1), j;
+				if (pos < live) {
+					addrxlat_ctx_del_cb(ctx, cbs[pos]);
+					for (j = pos; j + 1 < live; ++j) cbs[j] = cbs[j + 1];
+					--live;
+				}
+				if (i >= from) { puts("> del"); fflush(stdout); }
+			} else if (i >= from)
+				invoke(ctx, hs[i]);
+			if (i >= from && write(pfd[1], "x", 1) != 1) _exit(4);
 		}
-		/* remove the layers top-down: must restore the default chain */
-		for (i = 0; i < nlay; ++i)
+		/* remove the remaining layers top-down */
+		for (i = 0; i < live; ++i)
 			addrxlat_ctx_del_cb(ctx, cbs[i]);
 		addrxlat_ctx_decref(ctx);
 		_exit(0);
@@ -137,6 +149,8 @@ int main(void)
 			}
 		} else if (!strncmp(line, "inv", 3)) {
 			if (nh < 4096) hs[nh++] = atoi(line + 3);
+		} else if (!strncmp(line, "del", 3)) {
+			if (nh < 4096) hs[nh++] = -(atoi(line + 3) + 1);
 		}
 	}
 	return 0;
